@@ -193,3 +193,79 @@ Fixpoint run_trace (st : store) (a b : obj) (tr : list (side * mut)) : store * o
   | (SA, m) :: r => let '(st1, a') := apply_mut st a m in run_trace st1 a' b r
   | (SB, m) :: r => let '(st1, b') := apply_mut st b m in run_trace st1 a b' r
   end.
+
+(* ---- replay of operation sequences on an environment of objects (for the correspondence) ---- *)
+Inductive gop :=
+| GCopy | GDeepCopy | GAccCenter | GAccSpacing | GAccAlign | GSetCenter | GEditCenter | GEditSpacing
+| GAccGrid | GAccCondition | GAccData | GAccUnlink | GSetData | GEditParams.
+
+Definition snap_eqb (a b : list (nat * nat * nat * nat) * list (nat * nat * nat * nat) * list (nat * nat * nat * nat)) : bool :=
+  let q x y := match x, y with (a1, a2, a3, a4), (b1, b2, b3, b4) => (a1 =? b1) && (a2 =? b2) && (a3 =? b3) && (a4 =? b4) end in
+  let fix leq (l m : list (nat * nat * nat * nat)) := match l, m with
+      | [], [] => true | x :: l', y :: m' => q x y && leq l' m' | _, _ => false end in
+  match a, b with (a1, a2, a3), (b1, b2, b3) => leq a1 b1 && leq a2 b2 && leq a3 b3 end.
+
+Fixpoint replace_nth {A} (l : list A) (k : nat) (x : A) : list A :=
+  match l, k with
+  | [], _ => []
+  | _ :: r, 0 => x :: r
+  | y :: r, S j => y :: replace_nth r j x
+  end.
+
+Inductive gres := GOk (st : store) (env : list obj) | GErr.
+Definition params_ref (st : store) (o : obj) : option ref :=
+  match get_entry (cv st (pc o)) n_params with
+  | Some r => Some r
+  | None => match get_entry (cv st (bc o)) n_params with Some r => Some r | None => get_entry (slots o) n_params end
+  end.
+Definition gstep (st : store) (env : list obj) (op : gop) (k : nat) : gres :=
+  match nth_error env k with
+  | None => GErr
+  | Some o =>
+      let add (r : store * obj) := GOk (fst r) (env ++ [snd r]) in
+      match op with
+      | GCopy => add (shallow_copy st o)
+      | GDeepCopy => add (deep_copy st o)
+      | GAccCenter => if ismod o then GErr else add (acc_simple st o n_center 3)
+      | GAccSpacing => if ismod o then GErr else add (acc_simple st o n_spacing 5)
+      | GAccAlign => if ismod o then GErr else add (acc_flag st o n_align 0)
+      | GSetCenter => if ismod o then GErr else let '(st1, t) := alloc_tensor st 7 in GOk st1 (replace_nth env k (set_slot o n_center (RT t)))
+      | GEditCenter => if ismod o then GErr else GOk (edit_ref st (get_entry (slots o) n_center)) env
+      | GEditSpacing => if ismod o then GErr else GOk (edit_ref st (get_entry (slots o) n_spacing)) env
+      | GAccGrid => if ismod o then add (acc_grid st o 9) else GErr
+      | GAccCondition => if ismod o then add (acc_condition st o 1) else GErr
+      | GAccData => if ismod o then match acc_data st o 4 with SOk st' c => GOk st' (env ++ [c]) | SErr => GErr end else GErr
+      | GAccUnlink => if ismod o then match acc_unlink st o with SOk st' c => GOk st' (env ++ [c]) | SErr => GErr end else GErr
+      | GSetData =>
+          if ismod o then
+            let '(st1, t) := alloc_tensor st 6 in
+            let isparam := match get_entry (cv st1 (pc o)) n_params with Some (RT _) => true | _ => false end in
+            match module_setattr st1 o n_params (if isparam then VParam t else VTensor t) with
+            | SOk st2 o' => GOk (clear_buffers st2 o') (replace_nth env k o')
+            | SErr => GErr
+            end
+          else GErr
+      | GEditParams => if ismod o then match params_ref st o with Some (RT t) => GOk (edit_tensor st t) env | _ => GErr end else GErr
+      end
+  end.
+Definition changed_objs (st st' : store) (env env' : list obj) : list nat :=
+  filter (fun j => match nth_error env j, nth_error env' j with
+                   | Some a, Some b => negb (snap_eqb (snap st a) (snap st' b))
+                   | _, _ => false
+                   end) (seq 0 (length env)).
+(* per step: None = error (the run stops), Some l = the previously existing objects whose state changed *)
+Fixpoint greplay (st : store) (env : list obj) (steps : list (gop * nat)) : list (option (list nat)) :=
+  match steps with
+  | [] => []
+  | (op, k) :: r => match gstep st env op k with
+                    | GErr => [None]
+                    | GOk st' env' => Some (changed_objs st st' env env') :: greplay st' env' r
+                    end
+  end.
+Definition grid0 : store * obj :=
+  (mkSt (fun t => 10 + t) (fun _ => []) 4 0,
+   mkObj [(n_center, RT 0); (n_spacing, RT 1); (13, RT 2); (14, RT 3); (n_align, RV 1)] 0 0 false).
+Definition tparam0 : store * obj :=
+  (mkSt (fun t => 10 + t) (fun c => match c with 0 => [(n_params, RT 0)] | _ => [] end) 1 2, mkObj [(n_grid, RV 7); (n_args, RV 0)] 0 1 true).
+Definition ttensor0 : store * obj :=
+  (mkSt (fun t => 10 + t) (fun c => match c with 1 => [(n_params, RT 0)] | _ => [] end) 1 2, mkObj [(n_grid, RV 7); (n_args, RV 0)] 0 1 true).
